@@ -307,8 +307,8 @@ fn boundary_v<V: Fv>(ctx: &Ctx, rep: &mut Report) {
 /// a padding bit set, a negative zero, the final stop bit dropped near the buffer end.
 fn lenient_v<V: Fv>(ctx: &Ctx, rep: &mut Report) {
     let reps = ctx.sz(4, 200);
-    let r = par_for(12 * reps, ncpu(), |job, rep| {
-        let t = (job % 12) as u32 + 1; // spare bits at the end of the body
+    let r = par_for(13 * reps, ncpu(), |job, rep| {
+        let t = (job % 13) as u32; // spare bits at the end of the body (0 = the encoding fills it exactly)
         let mut rng = rng_for(ctx.seed, &format!("c02-lenient-{}-{}", V::NAME, job));
         let c = match craft_exact(V::N, V::BOUND - 3_000_000 - (job as i64), 100 + t, &mut rng) {
             Some(c) => c,
@@ -331,6 +331,13 @@ fn lenient_v<V: Fv>(ctx: &Ctx, rep: &mut Report) {
         let base = check_triple::<V>("lenient-base", &c.msg, &build_sig::<V>(&c.salt, &body), &pkb, rep);
         if !matches!(base, Some((true, _))) {
             rep.inconclusive("lenient base triple is not accepted by the reference".into());
+            return;
+        }
+        if t == 0 {
+            // exact fit: nothing to malform behind the encoding; the accepting side is the test
+            rep.count("exact_fit_accepted_triples", 1);
+            rep.nontrivial(format!("exactfit|{}|{}", V::NAME, job).as_bytes());
+            // the last coefficient short (9 bits) and long (more unary bits) both occur across jobs
             return;
         }
         let flip = |b: &[u8], bit: usize| {
@@ -377,6 +384,7 @@ pub fn boundary(ctx: &Ctx, rep: &mut Report) {
     lenient_v::<F512>(ctx, rep);
     lenient_v::<F1024>(ctx, rep);
     rep.require("lenient_malformed_cases", 100);
+    rep.require("exact_fit_accepted_triples", 4);
     for k in ["at_bound-1", "at_bound+0", "at_bound+1"] {
         rep.require(k, 20);
     }
